@@ -316,6 +316,24 @@ func Arg[T any](x *X, k int, v T) T {
 	return v
 }
 
+// Epoch and UserEmitter are values of user variables that rendered programs declare under names generated
+// code uses itself (startTime, emitter); CtxChecked is then the context argument and reports whether the
+// expressions that mention those names still see the user's values (C15: no capture).
+var (
+	Epoch       = time.Unix(1000000000, 0)
+	UserEmitter = cff.NopEmitter()
+)
+
+// CtxChecked returns the directive's context; every false argument is logged as a captured user name.
+func (x *X) CtxChecked(oks ...bool) context.Context {
+	for i, ok := range oks {
+		if !ok {
+			x.add(Ev{Ev: "capture", K: i + 1, G: vt.GoID(), Idx: -1, Note: "a user variable named like a generated identifier was captured"})
+		}
+	}
+	return x.ctx
+}
+
 // Ctx is the expression used as the directive's context argument.
 func (x *X) Ctx() context.Context { return x.ctx }
 
